@@ -68,7 +68,15 @@ extern "C" void plc_main()
     ptd::set_get_default_pool([]() -> pika::threads::detail::thread_pool_base* { return default_pool; });
     bool useB = verif_nondet_range(0, 1);
     verif_pool* target = useB ? B : A;
-    ex::thread_pool_scheduler sched(target);
+    // scheduler properties chosen by the submitter: worker hint, priority, stack size
+    bool hinted = verif_nondet_range(0, 1);
+    std::int16_t hint = (std::int16_t) verif_nondet_range(0, 3);
+    unsigned pr = verif_nondet_range(0, 2), st = verif_nondet_range(0, 1);
+    auto prio = pr == 0 ? pika::execution::thread_priority::normal : pr == 1 ? pika::execution::thread_priority::high : pika::execution::thread_priority::low;
+    auto stack = st == 0 ? pika::execution::thread_stacksize::small_ : pika::execution::thread_stacksize::large;
+    ex::thread_pool_scheduler sched0(target);
+    auto sched1 = ex::with_priority(ex::with_stacksize(sched0, stack), prio);
+    ex::thread_pool_scheduler sched = hinted ? ex::with_hint(sched1, pika::execution::thread_schedule_hint(hint)) : sched1;
     unsigned what = verif_nondet_range(0, 2);
     if (what == 0)
     {
@@ -108,5 +116,13 @@ extern "C" void plc_main()
         run_spawned(0);
         verif_assert(signals == 1 && value_seen == 8 && f_pool == target, "continues_on: values forwarded to a continuation running on the target pool");
     }
+    // the task that was registered carries exactly the submitter's hint, priority and stack size to the pool
+    verif_assert(verif_spawned_prio[0] == (int) prio, "the requested priority reaches the pool unchanged");
+    verif_assert(verif_spawned_stack[0] == (int) stack, "the requested stack size reaches the pool unchanged");
+    if (hinted)
+        verif_assert(verif_spawned_hint_mode[0] == (int) pika::execution::thread_schedule_hint_mode::thread && verif_spawned_hint[0] == hint,
+            "a worker hint reaches the pool unchanged (mode thread, same worker index)");
+    else
+        verif_assert(verif_spawned_hint_mode[0] == (int) pika::execution::thread_schedule_hint_mode::none, "no hint requested: none reaches the pool");
     verif_cover(0);
 }
